@@ -368,7 +368,7 @@ bool DynamicBitset::operator []( size_t pos) const noexcept( false)
 DynamicBitset::reference DynamicBitset::operator []( size_t pos) noexcept( true)
 {
 
-   if (pos > mData.size())
+   if (pos >= mData.size())
       mData.resize( (pos + 1) * 1.5);
 
    return mData[ pos];
